@@ -339,7 +339,27 @@ def t_window_var_to_callee(k):
     return {"prec": "f32", "cfg": False, "callees": [wr], "main": main}
 
 
-TEMPLATES = [t_window_on_alloc, t_config_fields, t_control_divmod, t_window_of_alloc, t_else_then_more, t_dependent_alloc, t_rmw_prefix, t_triangular_alloc, t_reduce_beyond, t_config_chain, t_maybe_zero_bound, t_masked_callee, t_config_scalar, t_same_name_inline, t_externs, t_nested_window_point, t_alloc_before_if_else, t_window_var_to_callee]
+def t_last_use_in_else(k):
+    """heap buffers whose last use (in program order of their scope) lies only in the else-arm of
+    an if, or in an else-arm inside a loop, or in a loop bound / if condition position of a later
+    statement's body (placement of free)"""
+    mem = ["DRAM", "MDRAM"][k % 2]
+    inner = (k // 2) % 2 == 1
+    use = [["for", "i", "0", "8", [["assign", "y", ["i"], "t[i] + u[7 - i]"]], "seq"]]
+    ife = ["if", "n > 2", [["assign", "y", ["0"], "x[0]"]], use]
+    body = [
+        ["alloc", "t", "f32", ["8"], mem],
+        ["alloc", "u", "f32", ["8"], mem],
+        ["for", "i", "0", "8", [["assign", "t", ["i"], "x[i]"], ["assign", "u", ["i"], "x[i] + 1.0"]], "seq"],
+        ["assign", "y", ["1"], "u[1]"],
+    ]
+    body += [["for", "r", "0", "2", [ife], "seq"]] if inner else [ife]
+    body += [["assign", "y", ["2"], "y[2] + 1.0"]]
+    main = {"name": "foo", "args": [_arg("n", "size"), _arg("x", "tensor", dims=["8"]), _arg("y", "tensor", dims=["8"])], "preds": [], "body": body}
+    return {"prec": "f32", "cfg": False, "callees": [], "main": main}
+
+
+TEMPLATES = [t_window_on_alloc, t_config_fields, t_control_divmod, t_window_of_alloc, t_else_then_more, t_dependent_alloc, t_rmw_prefix, t_triangular_alloc, t_reduce_beyond, t_config_chain, t_maybe_zero_bound, t_masked_callee, t_config_scalar, t_same_name_inline, t_externs, t_nested_window_point, t_alloc_before_if_else, t_window_var_to_callee, t_last_use_in_else]
 
 
 def templates():
